@@ -86,9 +86,15 @@ func c18FaultProbeJob(h *HistSys, depth int) Job {
 			}
 			pre := hist[:len(hist)-1]
 			op := hist[len(hist)-1]
-			for k := 1; k <= n; k++ {
+			for k2 := 2; k2 <= 2*n+1; k2++ {
+				// the k-th call fails alone (even k2) / the k-th and every later call of the operation fail: an outage that begins
+				// in mid-operation and is over when the probes run (odd k2)
+				k, outage := k2/2, k2%2 == 1
 				w, _, _ := BuildHist(h, pre)
 				w.ResetFault(k)
+				if outage {
+					w.FaultAt, w.FaultFrom = 0, k
+				}
 				p, timedOut := watchdog(5*time.Second, func() { h.Apply(w, op) })
 				w.ResetFault(0)
 				evals++
@@ -98,7 +104,10 @@ func c18FaultProbeJob(h *HistSys, depth int) Job {
 						failed = l[6:]
 					}
 				}
-				distinct[hashOf(histString(hist), k)] = true
+				distinct[hashOf(histString(hist), k2)] = true
+				if outage {
+					failed += " and every later call"
+				}
 				if timedOut {
 					hangs++
 					report(hist, k, failed, "operation-does-not-return-after-api-failure", "no answer within 5 s")
